@@ -135,7 +135,7 @@ def _log_selection(draw, recipe, kind):
     out = []
     if kind == "batch-safe":
         # one batch-readable column per bus/branch table (the shape the batch reader of the pinned tree handles)
-        tabs = [t for t in BATCH_TABLES if present[t]]
+        tabs = [t for t in BATCH_TABLES if present[t] or _rare(draw, 12)]
         tabs = draw(st.lists(st.sampled_from(tabs), min_size=1, max_size=len(tabs), unique=True))
         for t in tabs:
             out.append({"t": t, "c": draw(st.sampled_from(BATCH_KEYS[t])), "idx": None})
@@ -411,7 +411,9 @@ def check(case):
                     ow.log_variable(l["t"], l["c"], index=[labels[k] for k in l["idx"]])
     rec = _check_controller_recyclability(net) if case["recycle"] is None else False
     recycled = isinstance(rec, dict)
+    # log_variable() stores 5-tuples, which the batch eligibility test (len(entry) > 2) rejects like index subsets
     batch_expected = (recycled and case["run"] == "runpp" and not rec["trafo"]
+                      and (case["log_mode"] != "method" or not case["log"])
                       and all(t in BATCH_TABLES and idx is None for t, c, idx in req))
     line_ctrl = any(c["et"] == "line" for c in case["ctrls"])
     mode = "batch" if batch_expected else ("recycle" if recycled else "plain")
@@ -501,7 +503,7 @@ def check(case):
                      n_bad=int(bad.sum()), first_bad_steps=sorted({int(x[0]) for x in np.argwhere(bad)})[:6])
             continue
         if list(df.columns) != labels:
-            res.fail("columns/%s/%s" % (mode, t), variable=name, have=[_j(x) for x in df.columns][:12], want=labels[:12])
+            res.fail("columns/%s" % mode, variable=name, have=[_j(x) for x in df.columns][:12], want=labels[:12])
     n_live = int(np.isfinite(np.array(ref_vm[0], dtype=float)).sum()) if ref_vm else 0
     res.label("live-buses:%s" % ("1" if n_live <= 1 else "2-3" if n_live <= 3 else ">=4"))
     rows_differ = len({repr([c["vals"][s] for c in case["ctrls"]]) for s in steps}) >= 2
@@ -532,11 +534,6 @@ def _recycle_cause(net, case, mode):
         sw = net.switch
         if len(sw) and (sw.et.isin(["t", "t3"]) & ~sw.closed).any():
             return "tap-ctrl+open-trafo-switch"
-        oos = set(net.bus.index[~net.bus.in_service])
-        for t, cols in (("trafo", ("hv_bus", "lv_bus")), ("trafo3w", ("hv_bus", "mv_bus", "lv_bus"))):
-            for col in cols:
-                if len(net[t]) and net[t][col].isin(oos).any():
-                    return "tap-ctrl+trafo-at-oos-bus"
     return None
 
 
